@@ -55,6 +55,9 @@ pub trait Memo: Any + Send + Sync {
     fn remove_outputs(&self, zalsa: &Zalsa, executor: DatabaseKeyIndex);
 
     /// Returns memory usage information about the memoized value.
+    /// Verification hook: textual dump of the memo's validation state.
+    #[cfg(salsa_rs_salsa_verif)]
+    fn verif_dump(&self) -> String;
     #[cfg(feature = "salsa_unstable")]
     fn memory_usage(&self) -> crate::database::MemoInfo;
 }
@@ -250,6 +253,11 @@ impl Memo for DummyMemo {
     }
 
     fn remove_outputs(&self, _zalsa: &Zalsa, _executor: DatabaseKeyIndex) {}
+
+    #[cfg(salsa_rs_salsa_verif)]
+    fn verif_dump(&self) -> String {
+        String::from("dummy")
+    }
 
     #[cfg(feature = "salsa_unstable")]
     fn memory_usage(&self) -> crate::database::MemoInfo {
@@ -449,6 +457,26 @@ impl<'a> MemoTableWithTypes<'a> {
         }
 
         memory_usage
+    }
+}
+
+#[cfg(salsa_rs_salsa_verif)]
+impl MemoTableWithTypes<'_> {
+    /// Verification hook: one line per present memo, `<memo ingredient index> <memo dump>`.
+    pub(crate) fn verif_dump(&self) -> Vec<String> {
+        let mut out = Vec::new();
+        for (index, memo) in self.memos.memos.iter().enumerate() {
+            let Some(memo) = NonNull::new(memo.atomic_memo.load(Ordering::Acquire)) else {
+                continue;
+            };
+            let Some(type_) = self.types.types.get(index) else {
+                continue;
+            };
+            // SAFETY: The `TypeId` is asserted in `insert()`.
+            let dyn_memo: &dyn Memo = unsafe { (type_.to_dyn_fn)(memo).as_ref() };
+            out.push(format!("{index} {}", dyn_memo.verif_dump()));
+        }
+        out
     }
 }
 
